@@ -478,7 +478,9 @@ theorem catchup_ok (P : Params) (G : Good P) (g : Group) (hf : FilesOK P g) (hw 
           simp only at sd2 hfound hc
           cases r2 with
           | err e => simp at hc
-          | notFound => simp at hc
+          | notFound =>
+            simp only at hc
+            split at hc <;> simp at hc
           | found rest =>
             simp only at hc
             obtain ⟨suf, hsv, hrest⟩ := hfound rest rfl
@@ -516,7 +518,10 @@ theorem catchup_sameDisk (P : Params) (g : Group) (h : Int) : SameDisk g (catchu
           simp only at sd2
           cases r2 with
           | err e => exact sd1.trans sd2
-          | notFound => exact sd1.trans sd2
+          | notFound =>
+            simp only
+            have sd3 := search_sameDisk P g2 (if h = 1 then 0 else h - 1) false
+            split <;> exact (sd1.trans sd2).trans (by simp_all)
           | found rest =>
             simp only
             split <;> exact sd1.trans sd2
@@ -690,7 +695,7 @@ theorem recover_clean (P : Params) (G : Good P) (S : Nat) (g : Group) (h : Int) 
     (he : ValidRec P e0) (hf : FilesOK P g) (hw : List Bytes) (t : Bytes) (hr : HeadRep P g hw t)
     (d0 : Bytes) (m0 : Nat)
     (hd0 : t = [] ∨ (ValidRec P d0 ∧ m0 < (frame P d0).length ∧ t = (frame P d0).take m0))
-    (hb : g.buf = []) (res : RecoverRes) (g' : Group) (hrec : recover P S g h e0 = (res, g'))
+    (hb : g.buf = []) (dhl dtl : Nat) (res : RecoverRes) (g' : Group) (hrec : recover P S dhl dtl g h e0 = (res, g'))
     (hok : RecoveredOK res) :
     (∀ j, fileAt g' j = fileAt g j) ∧ g'.buf = [] ∧
       ((∃ hw', (∀ d ∈ hw', ValidRec P d) ∧ g'.head = frames P hw' ∧ HeadAfter hw t d0 e0 hw')
@@ -737,7 +742,7 @@ theorem recover_clean (P : Params) (G : Good P) (S : Nat) (g : Group) (h : Int) 
             · simp at h2; subst h2; exact hd
           · exact Or.inr h1
       -- the reopened group handed to OnStart
-      have hgo : ∃ go : Group, repairHead P S g1 e0 = onStart P S go e0 ∧
+      have hgo : ∃ go : Group, repairHead P S dhl dtl g1 e0 = onStart P S go e0 ∧
           go.head = repair P (stop g1).head ∧ go.buf = [] ∧ go.files = g1.files := by
         unfold repairHead
         exact ⟨_, rfl, rfl, rfl, rfl⟩
